@@ -229,24 +229,100 @@ Qed.
 
 Definition sts_measure (s : src) (k : snk) : nat := (length (s_script s) + length (s_stream s))%nat.
 
+Ltac splits := repeat match goal with |- _ /\ _ => split end.
+
+Lemma get_octet_script s r d s' : source_get_octet s = (r, d, s') -> (length (s_script s') <= length (s_script s))%nat.
+Proof.
+  unfold source_get_octet, src_octet_call, src_chunk_call.
+  destruct (s_octet s); destruct (s_script s) as [|ev sc]; cbn [pop_ev];
+    try (destruct (s_stream s); intros [= <- <- <-]; cbn; lia);
+    destruct ev; try (intros [= <- <- <-]; cbn; lia); destruct (s_stream s); intros [= <- <- <-]; cbn; lia.
+Qed.
+
+(* the repeated single-octet read: an octet, or an error with nothing consumed from the stream; never "nothing" *)
+Lemma get_octet_nz_spec : forall sc s r d s', (length (s_script s) <= length sc)%nat -> get_octet_nz sc s = (r, d, s') ->
+  d ++ s_stream s' = s_stream s /\ (length (s_script s') <= length (s_script s))%nat /\
+  (forall c, r = DOk c -> length d = 1%nat) /\
+  (forall e, r = DErr e -> d = []).
+Proof.
+  induction sc as [|ev0 sc IH]; intros s r d s' Hl H; cbn [get_octet_nz] in H;
+    destruct (source_get_octet s) as [[r1 d1] s1] eqn:G;
+    pose proof (get_octet_script _ _ _ _ G) as Hsc;
+    destruct (get_octet_measure _ _ _ _ G) as (P & M & Z).
+  - destruct r1 as [c|e].
+    + destruct (M c eq_refl) as [M1 M2]. destruct d1 as [|x t].
+      * cbn [app] in P. rewrite P in M1. cbn [length] in Hl. lia.
+      * injection H as <- <- <-. splits; [exact P|exact Hsc|intros c' _; cbn [length] in *; lia|discriminate].
+    + injection H as <- <- <-. splits; [exact P|exact Hsc|discriminate|exact Z].
+  - destruct r1 as [c|e].
+    + destruct (M c eq_refl) as [M1 M2]. destruct d1 as [|x t].
+      * cbn [app] in P. rewrite P in M1.
+        destruct (IH s1 r d s') as (P2 & S2 & L2 & Z2); [cbn [length] in Hl; lia|exact H|].
+        rewrite <- P. splits; [exact P2|lia|exact L2|exact Z2].
+      * injection H as <- <- <-. splits; [exact P|exact Hsc|intros c' _; cbn [length] in *; lia|discriminate].
+    + injection H as <- <- <-. splits; [exact P|exact Hsc|discriminate|exact Z].
+Qed.
+
+Lemma put_octet_cases k x r k' : sink_put_octet k x = (r, k') ->
+  (r = DOk 1 /\ k_got k' = k_got k ++ [x]) \/ (r = DOk 0 /\ k_got k' = k_got k /\ (length (k_script k') < length (k_script k))%nat) \/
+  (exists e, r = DErr e /\ k_got k' = k_got k).
+Proof.
+  unfold sink_put_octet, snk_octet_call, snk_chunk_call.
+  destruct (k_octet k); destruct (k_script k) as [|ev sc] eqn:Es; cbn [pop_ev].
+  - intros [= <- <-]. left. auto.
+  - destruct ev as [g| | | |e0]; intros [= <- <-]; cbn [snk_with k_script k_got length];
+      [left; auto|right; left; splits; auto; lia|right; right; eauto..].
+  - intros [= <- <-]. left. cbn. auto.
+  - destruct ev as [g| | | |e0]; intros [= <- <-]; cbn [snk_with k_script k_got length];
+      [|right; left; splits; auto; lia|right; right; eauto..].
+    cbn [length N.of_nat Pos.of_succ_nat]. destruct (N.eq_dec g 0) as [->|Hg].
+    + right; left. cbn. rewrite app_nil_r. splits; auto.
+    + left. replace (N.min g 1) with 1 by lia. auto.
+Qed.
+
+(* the repeated single-octet write: the octet is in the sink, or an error and the sink is unchanged *)
+Lemma put_octet_nz_spec : forall sc k x r k', (length (k_script k) <= length sc)%nat -> put_octet_nz sc k x = (r, k') ->
+  (length (k_script k') <= length (k_script k))%nat /\
+  ((r = DOk 1 /\ k_got k' = k_got k ++ [x]) \/ (exists e, r = DErr e /\ k_got k' = k_got k)).
+Proof.
+  induction sc as [|ev0 sc IH]; intros k x r k' Hl H; cbn [put_octet_nz] in H;
+    destruct (sink_put_octet k x) as [r1 k1] eqn:E;
+    pose proof (put_octet_script _ _ _ _ E) as Hsc;
+    destruct (put_octet_cases _ _ _ _ E) as [[-> G]|[(-> & G & Hlt)|(e & -> & G)]].
+  - cbn in H. injection H as <- <-. split; [exact Hsc|left; auto].
+  - cbn [length] in Hl. lia.
+  - injection H as <- <-. split; [exact Hsc|right; eauto].
+  - cbn in H. injection H as <- <-. split; [exact Hsc|left; auto].
+  - cbn [N.eqb] in H. destruct (IH k1 x r k') as (S2 & C2); [cbn [length] in Hl; lia|exact H|].
+    split; [lia|]. rewrite G in C2. exact C2.
+  - injection H as <- <-. split; [exact Hsc|right; eauto].
+Qed.
+
+(* one octet through, for EVERY source and EVERY sink script: what reached the sink plus at most one lost octet plus what
+   the source still holds is the stream; a success moved exactly one octet *)
+Lemma sts_cbc_spec s k r s' k' : sts_cbc s k = (r, s', k') ->
+  (length (s_script s') <= length (s_script s))%nat /\ (length (k_script k') <= length (k_script k))%nat /\
+  exists moved lost, s_stream s = moved ++ lost ++ s_stream s' /\ k_got k' = k_got k ++ moved /\
+    (forall c, r = DOk c -> c = 1 /\ length moved = 1%nat /\ lost = []) /\
+    (forall e, r = DErr e -> moved = [] /\ (length lost <= 1)%nat).
+Proof.
+  unfold sts_cbc. destruct (get_octet_nz (s_script s) s) as [[r1 d] s1] eqn:G.
+  destruct (get_octet_nz_spec _ _ _ _ _ (le_n _) G) as (P & Sc & L & Z).
+  destruct r1 as [c1|e].
+  - specialize (L c1 eq_refl). destruct d as [|x d']; [discriminate|]. destruct d'; [|discriminate].
+    destruct (put_octet_nz (k_script k) k x) as [r2 k2] eqn:E. intros [= <- <- <-].
+    destruct (put_octet_nz_spec _ _ _ _ _ (le_n _) E) as (Sk & [[-> Hg]|(e & -> & Hg)]); (split; [exact Sc|]); (split; [exact Sk|]).
+    + exists [x], []. cbn [app] in *. rewrite Hg. splits; [symmetry; exact P|reflexivity|intros c [= <-]; auto|discriminate].
+    + exists [], [x]. cbn [app] in *. rewrite Hg, app_nil_r. splits; [symmetry; exact P|reflexivity|discriminate|intros e' _; auto].
+  - intros [= <- <- <-]. rewrite (Z e eq_refl) in P. cbn [app] in P. split; [exact Sc|]. split; [lia|].
+    exists [], []. cbn [app]. rewrite app_nil_r. splits; [symmetry; exact P|reflexivity|discriminate|intros e' _; auto].
+Qed.
+
 Lemma sts_cbc_measure s k r s' k' : sts_cbc s k = (r, s', k') ->
   forall c, r = DOk c -> (sts_measure s' k' < sts_measure s k)%nat.
 Proof.
-  unfold sts_cbc, sts_measure. destruct (source_get_octet s) as [[r1 d] s1] eqn:G.
-  destruct (get_octet_measure _ _ _ _ G) as (_ & M & _).
-  destruct r1 as [c1|e]; [|intros [= <- <- <-]; discriminate].
-  destruct d as [|x d']; [intros [= <- <- <-]; discriminate|].
-  destruct (sink_put_octet k x) as [r2 k2]. intros [= <- <- <-] c _. destruct (M c1 eq_refl). lia.
-Qed.
-
-Lemma put_octet_count k x r k' : sink_put_octet k x = (r, k') ->
-  forall c, r = DOk c -> c <= 1 /\ (c = 0 -> (length (k_script k') < length (k_script k))%nat).
-Proof.
-  unfold sink_put_octet, snk_octet_call, snk_chunk_call. destruct (k_octet k); destruct (k_script k) as [|ev sc]; cbn [pop_ev].
-  - intros [= <- <-] c [= <-]. split; [lia|discriminate].
-  - destruct ev; intros [= <- <-] c Hc; try discriminate; injection Hc as <-; cbn; split; lia.
-  - intros [= <- <-] c [= <-]. cbn [length]. unfold SSIZE_MAX. split; [lia|lia].
-  - destruct ev as [g| | | |e0]; intros [= <- <-] c Hc; try discriminate; injection Hc as <-; cbn [snk_with k_script length]; split; lia.
+  intros H c ->. destruct (sts_cbc_spec _ _ _ _ _ H) as (Sc & Sk & moved & lost & P & _ & L & _).
+  destruct (L c eq_refl) as (_ & Lm & ->). unfold sts_measure. rewrite P, app_length. cbn [app]. lia.
 Qed.
 
 Definition stsn_measure (s : src) (k : snk) (rest : N) : nat :=
@@ -255,15 +331,8 @@ Definition stsn_measure (s : src) (k : snk) (rest : N) : nat :=
 Lemma sts_cbc_measure_n s k r s' k' rest : sts_cbc s k = (r, s', k') -> rest <> 0 ->
   forall c, r = DOk c -> (stsn_measure s' k' (rest - c) < stsn_measure s k rest)%nat.
 Proof.
-  unfold sts_cbc, stsn_measure. destruct (source_get_octet s) as [[r1 d] s1] eqn:G.
-  destruct (get_octet_measure _ _ _ _ G) as (P & M & _).
-  destruct r1 as [c1|e]; [|intros [= <- <- <-]; discriminate].
-  destruct d as [|x d']; [intros [= <- <- <-]; discriminate|].
-  destruct (sink_put_octet k x) as [r2 k2] eqn:E. intros [= <- <- <-] Hr c ->.
-  destruct (M c1 eq_refl) as [M1 M2]. destruct d'; [|cbn in M2; lia].
-  assert (Hst : length (s_stream s) = S (length (s_stream s1))) by (rewrite <- P; reflexivity).
-  pose proof (put_octet_script _ _ _ _ E) as Hk. destruct (put_octet_count _ _ _ _ E c eq_refl) as [C1 C2].
-  destruct (N.eq_dec c 0) as [->|Hc]; [specialize (C2 eq_refl); lia|]. lia.
+  intros H Hr c ->. destruct (sts_cbc_spec _ _ _ _ _ H) as (Sc & Sk & moved & lost & P & _ & L & _).
+  destruct (L c eq_refl) as (-> & Lm & ->). unfold stsn_measure. rewrite P, app_length. cbn [app]. lia.
 Qed.
 
 Lemma sts_n_loop_total : forall fuel total rest s k, (stsn_measure s k rest < fuel)%nat -> sts_n_loop fuel total rest s k <> None.
@@ -281,73 +350,51 @@ Proof.
   apply IH. pose proof (sts_cbc_measure _ _ _ _ _ C c eq_refl). lia.
 Qed.
 
-(* a sink that either accepts an octet or fails hard (no zero-length returns, no EINTR/EAGAIN on single octets) *)
-Definition steady_ev (e : ev) : Prop := match e with Give g => 1 <= g | Fail _ => True | _ => False end.
-Definition steady (k : snk) : Prop := Forall steady_ev (k_script k).
-
-Lemma put_octet_steady k x r k' : steady k -> sink_put_octet k x = (r, k') ->
-  steady k' /\ ((r = DOk 1 /\ k_got k' = k_got k ++ [x]) \/ (exists e, r = DErr e /\ k_got k' = k_got k)).
+(* the fixed-count per-octet loop *)
+Theorem sts_n_cbc_spec : forall n total s k r s' k', sts_n_cbc n total s k = (r, s', k') ->
+  exists moved lost, s_stream s = moved ++ lost ++ s_stream s' /\ k_got k' = k_got k ++ moved /\ (length lost <= 1)%nat /\
+    (forall t, r = DOk t -> t = total /\ length moved = n /\ lost = []).
 Proof.
-  unfold steady, sink_put_octet, snk_octet_call, snk_chunk_call. intros Hs.
-  destruct (k_octet k); destruct (k_script k) as [|ev sc] eqn:Es; cbn [pop_ev].
-  - intros [= <- <-]. cbn. split; [constructor|left; auto].
-  - inversion Hs as [|? ? He Hr]; subst. destruct ev as [g| | | |e0]; cbn in He; try contradiction; intros [= <- <-]; cbn [snk_with k_script k_got];
-      (split; [exact Hr|]); [left; auto|right; eauto].
-  - intros [= <- <-]. cbn. split; [constructor|left; auto].
-  - inversion Hs as [|? ? He Hr]; subst. destruct ev as [g| | | |e0]; cbn in He; try contradiction; intros [= <- <-]; cbn [snk_with k_script k_got];
-      (split; [exact Hr|]); [|right; eauto].
-    left. cbn [length N.of_nat Pos.of_succ_nat]. replace (N.min g 1) with 1 by lia. auto.
+  induction n as [|n IH]; intros total s k r s' k' H; cbn [sts_n_cbc] in H.
+  - injection H as <- <- <-. exists [], []. cbn [app]. rewrite app_nil_r. splits; auto. intros t [= <-]. auto.
+  - destruct (sts_cbc s k) as [[r1 s1] k1] eqn:C.
+    destruct (sts_cbc_spec _ _ _ _ _ C) as (_ & _ & moved & lost & P & G & L1 & L2).
+    destruct r1 as [c|e].
+    + destruct (L1 c eq_refl) as (-> & Hm & ->). cbn [app] in P.
+      destruct (IH _ _ _ _ _ _ H) as (moved2 & lost2 & P2 & G2 & Hl2 & L3).
+      exists (moved ++ moved2), lost2. rewrite P, P2, G2, G, <- !app_assoc. splits; auto.
+      intros t0 Ht. destruct (L3 t0 Ht) as (-> & Hn & ->). splits; auto. rewrite app_length. lia.
+    + injection H as <- <- <-. destruct (L2 e eq_refl) as [-> Hl]. exists [], lost. cbn [app] in *.
+      splits; auto. discriminate.
 Qed.
 
-Ltac fin2 := repeat split; auto; try (symmetry; assumption); try discriminate; try (intros ? [= <-]; repeat split; auto); try congruence; try (cbn; lia).
-
-(* one octet through: what reached the sink plus at most one lost octet plus what the source still holds is the stream *)
-Lemma sts_cbc_spec s k r s' k' : steady k -> sts_cbc s k = (r, s', k') ->
-  steady k' /\ exists moved lost, s_stream s = moved ++ lost ++ s_stream s' /\ k_got k' = k_got k ++ moved /\
-    (forall c, r = DOk c -> c = 1 /\ length moved = 1%nat /\ lost = []) /\
-    (forall e, r = DErr e -> moved = [] /\ (length lost <= 1)%nat).
-Proof.
-  intros Hs. unfold sts_cbc. destruct (source_get_octet s) as [[r1 d] s1] eqn:G.
-  destruct (get_octet_measure _ _ _ _ G) as (P & M & Z).
-  destruct r1 as [c1|e].
-  - destruct d as [|x d'].
-    + intros [= <- <- <-]. split; [exact Hs|]. exists [], []. cbn [app] in *. rewrite app_nil_r. fin2.
-    + destruct (M c1 eq_refl) as [_ Hl]. destruct d'; [|cbn in Hl; lia].
-      destruct (sink_put_octet k x) as [r2 k2] eqn:E. intros [= <- <- <-].
-      destruct (put_octet_steady k x r2 k2 Hs E) as [Hs' [[-> Hg]|(e & -> & Hg)]]; (split; [exact Hs'|]).
-      * exists [x], []. cbn [app] in *. rewrite Hg. fin2.
-      * exists [], [x]. cbn [app] in *. rewrite Hg, app_nil_r. fin2.
-  - intros [= <- <- <-]. rewrite (Z e eq_refl) in P. cbn [app] in P. split; [exact Hs|].
-    exists [], []. cbn [app]. rewrite app_nil_r. fin2.
-Qed.
-
-Theorem sts_n_loop_spec : forall fuel total rest s k r s' k', steady k ->
+Theorem sts_n_loop_spec : forall fuel total rest s k r s' k',
   sts_n_loop fuel total rest s k = Some (r, s', k') ->
   exists moved lost, s_stream s = moved ++ lost ++ s_stream s' /\ k_got k' = k_got k ++ moved /\ (length lost <= 1)%nat /\
     (forall t, r = DOk t -> t = total /\ N.of_nat (length moved) = rest /\ lost = []).
 Proof.
-  induction fuel as [|f IH]; intros total rest s k r s' k' Hs H; cbn [sts_n_loop] in H.
+  induction fuel as [|f IH]; intros total rest s k r s' k' H; cbn [sts_n_loop] in H.
   - destruct (N.eqb_spec rest 0) as [->|]; [|discriminate]. injection H as <- <- <-.
-    exists [], []. cbn [app]. rewrite app_nil_r. fin2.
+    exists [], []. cbn [app]. rewrite app_nil_r. splits; auto. intros t [= <-]. auto.
   - destruct (N.eqb_spec rest 0) as [->|Hr].
-    { injection H as <- <- <-. exists [], []. cbn [app]. rewrite app_nil_r. fin2. }
+    { injection H as <- <- <-. exists [], []. cbn [app]. rewrite app_nil_r. splits; auto. intros t [= <-]. auto. }
     destruct (sts_cbc s k) as [[r1 s1] k1] eqn:C.
-    destruct (sts_cbc_spec _ _ _ _ _ Hs C) as (Hs1 & moved & lost & P & G & L1 & L2).
+    destruct (sts_cbc_spec _ _ _ _ _ C) as (_ & _ & moved & lost & P & G & L1 & L2).
     destruct r1 as [c|e].
     + destruct (L1 c eq_refl) as (-> & Hm & ->). cbn [app] in P.
-      destruct (IH _ _ _ _ _ _ _ Hs1 H) as (moved2 & lost2 & P2 & G2 & Hl2 & L3).
+      destruct (IH _ _ _ _ _ _ _ H) as (moved2 & lost2 & P2 & G2 & Hl2 & L3).
       exists (moved ++ moved2), lost2. rewrite P, P2, G2, G, <- !app_assoc. splits; auto.
-      intros t0 Ht. destruct (L3 t0 Ht) as (-> & Hn & ->). repeat split; auto. rewrite app_length. lia.
+      intros t0 Ht. destruct (L3 t0 Ht) as (-> & Hn & ->). splits; auto. rewrite app_length. lia.
     + injection H as <- <- <-. destruct (L2 e eq_refl) as [-> Hl]. exists [], lost. cbn [app] in *.
       splits; auto. discriminate.
 Qed.
 
 (* moving n octets: exactly the next n reach the sink, in order, or an error is returned and what reached the sink is a prefix *)
-Theorem sts_n_spec s k n r s' k' : steady k -> sts_n s k n = Some (r, s', k') ->
+Theorem sts_n_spec s k n r s' k' : sts_n s k n = Some (r, s', k') ->
   exists moved lost, s_stream s = moved ++ lost ++ s_stream s' /\ k_got k' = k_got k ++ moved /\ (length lost <= 1)%nat /\
     (forall t, r = DOk t -> t = n /\ moved = firstn (N.to_nat n) (s_stream s) /\ N.of_nat (length moved) = n /\ lost = []).
 Proof.
-  intros Hs H. destruct (sts_n_loop_spec _ _ _ _ _ _ _ _ Hs H) as (moved & lost & P & G & Hl & L).
+  intros H. destruct (sts_n_loop_spec _ _ _ _ _ _ _ _ H) as (moved & lost & P & G & Hl & L).
   exists moved, lost. split; [exact P|]. split; [exact G|]. split; [exact Hl|].
   intros t0 Ht. destruct (L t0 Ht) as (-> & Hn & ->). splits; auto.
   rewrite P. cbn [app]. rewrite firstn_app. replace (N.to_nat n - length moved)%nat with 0%nat by lia.
@@ -358,15 +405,15 @@ Theorem sts_n_total s k n : sts_n s k n <> None.
 Proof. unfold sts_n. apply sts_n_loop_total. unfold sts_fuel, stsn_measure. lia. Qed.
 
 (* draining: everything up to the point where the source or the sink ended it reached the sink, in order *)
-Theorem sts_drain_spec : forall fuel s k r s' k', steady k -> sts_drain_cbc fuel s k = Some (r, s', k') ->
+Theorem sts_drain_spec : forall fuel s k r s' k', sts_drain_cbc fuel s k = Some (r, s', k') ->
   exists moved lost e, r = DErr e /\ s_stream s = moved ++ lost ++ s_stream s' /\ k_got k' = k_got k ++ moved /\ (length lost <= 1)%nat.
 Proof.
-  induction fuel as [|f IH]; intros s k r s' k' Hs H; cbn [sts_drain_cbc] in H; [discriminate|].
+  induction fuel as [|f IH]; intros s k r s' k' H; cbn [sts_drain_cbc] in H; [discriminate|].
   destruct (sts_cbc s k) as [[r1 s1] k1] eqn:C.
-  destruct (sts_cbc_spec _ _ _ _ _ Hs C) as (Hs1 & moved & lost & P & G & L1 & L2).
+  destruct (sts_cbc_spec _ _ _ _ _ C) as (_ & _ & moved & lost & P & G & L1 & L2).
   destruct r1 as [c|e].
   - destruct (L1 c eq_refl) as (-> & Hm & ->). cbn [app] in P.
-    destruct (IH _ _ _ _ _ Hs1 H) as (moved2 & lost2 & e & -> & P2 & G2 & Hl2).
+    destruct (IH _ _ _ _ _ H) as (moved2 & lost2 & e & -> & P2 & G2 & Hl2).
     exists (moved ++ moved2), lost2, e. rewrite P, P2, G2, G, <- !app_assoc. splits; auto.
   - injection H as <- <- <-. destruct (L2 e eq_refl) as [-> Hl]. exists [], lost, e. cbn [app]. rewrite app_nil_r in *. splits; auto.
 Qed.
